@@ -15,6 +15,10 @@ READER_INITIATED = (61, 62, 63)
 REPLY_TYPES = [t for t in ALL_TYPES if t not in READER_INITIATED]
 INTERNAL = {"gsv": 56, "spv": 57, "close": 4}      # internal exchange -> its expected response type
 CONFIGS = ("none", "exp", "err", "def", "all")     # which MessageHandlers the client is built with (harness c12ClientOpts)
+NEGOTIATED = {1: "client built WithVersion(1.0.1), no negotiation", 2: "default client, reader already at 1.1",
+              3: "default client, reader at 1.0.1 / max 1.1, SET_PROTOCOL_VERSION to 1.1",
+              4: "default client, reader answers the version query with ERROR_MESSAGE VersionUnsupported (falls back to 1.0.1)"}
+NV_MODEL = {1: 1, 2: 2, 3: 2, 4: 1}     # the version number the connection ends up with
 ZERO = "0 - - -"
 SENTINEL = "48879 73656e74696e656c 7.8 9.10.11.12"     # what the harness pre-fills in mode s
 BATCH = 300000
@@ -218,6 +222,11 @@ class Gen:
                     out.append((w, a, c, "6e6573746564", self.fe(1), self.pe(2, 1), "z"))
                     out.append((w, a, c, "6e6573746564", self.fe(1), self.pe(2, 1), "zP"))
             out.append((w, exp, 0, "-", "-", "-", "z"))
+            # the reply's header version is not part of the exchange's outcome
+            for ver in range(8):
+                out.append((w, exp, 0, "-", "-", "-", "zV%d" % ver))
+                out.append((w, exp, 101, "76", self.fe(1), "-", "zV%d" % ver))
+                out.append((w, ERRMSG, 201, "76", "-", self.pe(1, 1), "zV%d" % ver))
             for a in (30, 31, 13):
                 if a != exp:
                     out.append((w, a, 101, "6f", "-", "-", "z"))
@@ -250,6 +259,8 @@ class Gen:
                     dep = rnd.choice([0, 0, 1, 2, 3])
                     p = self.pe(dep, rnd.getrandbits(dep) if dep else 0)
                     o = rnd.choice(["", "P", "I", "PI"])
+                if rnd.random() < 0.3:
+                    o += "V%d" % rnd.randrange(8)     # header version of this caller's reply
                 cases.append((e, a, codes[i], d, f, p, "z" + o))
             perm = list(range(k))
             if r % 3 == 1:
@@ -259,6 +270,145 @@ class Gen:
             rounds.append(("".join(map(str, perm)), 1 if r % 4 else 0, cases))
         rounds.sort(key=lambda x: -x[1])      # GOMAXPROCS is switched once
         return rounds
+
+    def build_versions(self):
+        """the version a reply carries in its header (all 8 values of the 3-bit field) is independent of the version negotiated
+        for the connection (4 ways of getting there): {nv: groups}. Expected type / ERROR_MESSAGE / unrelated type, Success and
+        failure codes, with and without nested detail."""
+        rnd, out = self.rnd, {}
+        for nv in (1, 2, 3, 4):
+            g = []
+            for ver in range(8):
+                for e in self.stypes:
+                    others = [t for t in REPLY_TYPES if t not in (e, ERRMSG)]
+                    for a in (e, ERRMSG, rnd.choice(others)):
+                        for c in (0, rnd.choice([100, 101, 110, 201, 401, rnd.randrange(1, 65536)])):
+                            nested = rnd.random() < 0.3
+                            mode = ("s" if a not in (e, ERRMSG) and rnd.random() < 0.5 else "z") + ("P" if nested and rnd.random() < 0.5 else "") + "V%d" % ver
+                            g.append(("versions", e, a, c, c + 1, rnd.choice(["-", "6f6f7073"]), "2.300" if nested else "-",
+                                      "137.201.1.301" if nested else "-", mode))
+            if self.thorough:
+                for ver in range(8):
+                    g.append(("versions", 30, 30, 0, 65536, "-", "-", "-", "zV%d" % ver))
+            out[nv] = g
+        return out
+
+    def build_undecodable(self):
+        """replies whose payload does not decode: every proper prefix of a well-formed payload (built here), and garbage of
+        every length 0..200 and some longer ones: (exp, act, payload hex). The model's DecFail branches."""
+        rnd, out = self.rnd, []
+
+        def tlv(t, body):
+            n = 4 + len(body)
+            return bytes([(t >> 8) & 3, t & 255, n >> 8, n & 255]) + body
+
+        def status(code, desc, nested):
+            b = bytes([code >> 8, code & 255, len(desc) >> 8, len(desc) & 255]) + desc
+            if nested:
+                b += tlv(288, bytes([0, 2, 1, 44])) + tlv(289, bytes([0, 137, 0, 201]) + tlv(288, bytes([0, 1, 1, 45])))
+            return tlv(287, b)
+        garbage = bytes([0xde, 0xad, 0xbe, 0xef]) * 20000
+        for e in self.stypes:
+            pre = bytes([1 << 5, 2 << 5]) if e == 56 else b""
+            for a in (e, ERRMSG):
+                lead = pre if a == e else b""
+                full = [lead + status(rnd.choice([0, 101]), b"cut", True)]
+                if e in (30, 56) or self.thorough:
+                    full.append(lead + status(201, bytes(rnd.randrange(32, 127) for _ in range(300)), True))
+                for b in full:
+                    pts = range(len(b)) if len(b) < 80 else sorted(set(range(0, 40)) | set(range(100, 140)) | set(range(250, 262)) | set(range(len(b) - 30, len(b))))
+                    for n in pts:
+                        out.append((e, a, hexs(b[:n])))
+                lens = list(range(0, 201)) if (e in (30, 56, 4) or self.thorough) else [0, 1, 2, 3, 4, 5, 7, 8, 9, 16, 64, 127, 128, 129, 200]
+                for n in lens + [255, 256, 257, 1000, 4096, 65535, 70000]:
+                    out.append((e, a, hexs(garbage[:n])))
+        return out
+
+    def build_histories(self):
+        """exchange histories on one Client: requests started / abandoned, and frames written by the reader with any id
+        (of an outstanding request, of an abandoned or already answered one, of no request at all), any type and header
+        version. Every history ends with each caller answered or abandoned. {nv: [history]}, history = list of steps
+        ('S', k, exp) | ('A', k) | ('R', ver, typ, idspec, layout, code, desc, fe, pe, flags)"""
+        rnd, st = self.rnd, [t for t in self.stypes if t != ERRMSG]
+        out = {}
+
+        def stat(success=None):
+            c = 0 if success else rnd.choice([100, 101, 201, 300, 401, rnd.randrange(1, 65536)])
+            if success is None and rnd.random() < 0.4:
+                c = 0
+            nested = rnd.random() < 0.3
+            return (c, rnd.choice(["-", "%02x" % rnd.randrange(65, 91), "6c617465"]), self.fe(1) if nested else "-",
+                    self.pe(rnd.choice([1, 2]), rnd.getrandbits(2)) if nested else "-", rnd.choice(["-", "-", "P"]) if nested else "-")
+
+        def frame(ver, typ, idspec, layout, success=None):
+            return ("R", ver, typ, idspec, layout) + stat(success)
+
+        def history(n):
+            steps, exp, outstanding, gone, started, nforeign = [], {}, [], [], 0, 0
+            budget = 6 + 4 * n
+            while started < n or outstanding:
+                budget -= 1
+                acts = []
+                if started < n:
+                    acts += ["start"] * 3
+                if outstanding:
+                    acts += ["reply"] * (3 if budget > 0 else 50) + ["abandon", "ri"]
+                if gone and budget > 0:
+                    acts += ["stale"] * 3
+                if budget > 0:
+                    acts += ["foreign"]
+                act = rnd.choice(acts)
+                ver = rnd.randrange(8)
+                # the payload of a frame that is not the own reply is laid out as what a waiting caller expects, so that a
+                # wrong hand-over would decode
+                lay = exp[outstanding[0]] if outstanding else rnd.choice(st)
+                if act == "start":
+                    exp[started] = rnd.choice(st)
+                    steps.append(("S", started, exp[started]))
+                    outstanding.append(started)
+                    started += 1
+                elif act == "abandon":
+                    k = outstanding.pop(rnd.randrange(len(outstanding)))
+                    steps.append(("A", k))
+                    gone.append(k)
+                elif act == "reply":
+                    k = outstanding.pop(rnd.randrange(len(outstanding)))
+                    x = rnd.random()
+                    typ = exp[k] if x < 0.7 else (ERRMSG if x < 0.9 else rnd.choice([t for t in REPLY_TYPES if t not in (exp[k], ERRMSG)]))
+                    steps.append(frame(ver, typ, "k%d" % k, exp[k]))
+                    gone.append(k)
+                elif act == "stale":
+                    k = rnd.choice(gone)
+                    typ = rnd.choice([ERRMSG, ERRMSG, lay, exp[k], rnd.choice(REPLY_TYPES)])
+                    steps.append(frame(ver, typ, "k%d" % k, lay, success=False if typ == ERRMSG else None))
+                elif act == "foreign":
+                    nforeign += 1
+                    typ = rnd.choice([ERRMSG, ERRMSG, lay, rnd.choice(REPLY_TYPES)])
+                    spec = rnd.choice(["f%d" % rnd.randrange(1, 1 << 20)] * 3 + ["f%d" % 0xBFFFFFFF, "m1", "m2", "m%d" % rnd.randrange(3, 50), "z0", "z0"])
+                    steps.append(frame(ver, typ, spec, lay, success=False if typ == ERRMSG else None))
+                elif act == "ri":
+                    k = rnd.choice(outstanding)
+                    steps.append(frame(ver, rnd.choice(READER_INITIATED), "k%d" % k, exp[k]))
+            return steps
+        for nv in (1, 2, 3, 4):
+            hs = []
+            # fixed families first: (a) request abandoned, its late answer (ERROR_MESSAGE / expected type / other) arrives while
+            # exactly one other request is outstanding; (b) a frame with an id no request carried; (c) an answer repeated
+            for typ_kind in ("errmsg", "exp", "other"):
+                for own_ok in (True, False):
+                    for rep_ in range(2 if not self.thorough else 6):
+                        e0, e1 = rnd.choice(st), rnd.choice(st)
+                        t = ERRMSG if typ_kind == "errmsg" else (e1 if typ_kind == "exp" else rnd.choice([x for x in REPLY_TYPES if x not in (e1, ERRMSG)]))
+                        hs.append([("S", 0, e0), ("A", 0), ("S", 1, e1), frame(rnd.randrange(8), t, "k0", e1, success=False if t == ERRMSG else None),
+                                   frame(rnd.randrange(8), e1, "k1", e1, success=own_ok)])
+                        hs.append([("S", 0, e1), frame(rnd.randrange(8), t, "f%d" % rnd.randrange(1, 1 << 20), e1, success=False if t == ERRMSG else None),
+                                   frame(rnd.randrange(8), e1, "k0", e1, success=own_ok)])
+                        hs.append([("S", 0, e0), frame(rnd.randrange(8), e0, "k0", e0), ("S", 1, e1),
+                                   frame(rnd.randrange(8), t, "k0", e1, success=False if t == ERRMSG else None), frame(rnd.randrange(8), e1, "k1", e1, success=own_ok)])
+            for i in range(900 if self.thorough else 220):
+                hs.append(history(1 + i % 4))
+            out[nv] = hs
+        return out
 
     def build_unsolicited(self):
         """a reader-initiated frame (KeepAlive / ROAccessReport / ReaderEventNotification) that carries the id of the
@@ -276,8 +426,9 @@ class Gen:
 def run(tier, seed, replay=None):
     res = vlib.Result(PID, tier, seed)
     res.assumptions = vlib.TRUSTED_COMMON + [
-        "the model covers the decision SendFor takes after SendMessage returned (type, payload); delivery of the "
-        "reply to the right caller is C03's subject, decoding of LLRPStatus bytes is tied here only through the scripted peer",
+        "the model covers the decision SendFor takes after SendMessage returned (type, payload) and, since round 5, which frame becomes "
+        "the reply of a request (Client/StatusExchange.v: matched by id while the request is outstanding, header version ignored); "
+        "goroutine interleavings of that hand-over are C03's subject, decoding of LLRPStatus bytes is tied here only through the scripted peer",
         "the scripted peer's own framing / TLV encoder (harness/llrp/c12_test.go) produces well-formed LLRP bytes",
         "caller-visible error = nil / errors.As(*StatusError) fields / other; error text is not compared",
         "response value 'untouched' is observed as reflect.DeepEqual with an identically built value (zero or sentinel-filled)",
@@ -318,6 +469,11 @@ def run(tier, seed, replay=None):
         unsol = [u for u in unsol if u[0] != "i"]
         by_cfg = {rp.get("config", "none"): groups}
         do_dt = False
+        undec = [tuple(c[1:4]) for c in rp.get("cases", []) if len(c) == 4 and c[0] == "y"]
+        hists = {}
+        for c in rp.get("cases", []):
+            if len(c) == 3 and c[0] == "h":
+                hists.setdefault(int(c[1]), []).extend([[tuple(x) for x in c[2]]] * 20)
     else:
         gen = Gen(seed, thorough, stypes)
         groups = gen.build()
@@ -327,18 +483,26 @@ def run(tier, seed, replay=None):
         by_cfg = {"none": groups}
         for n, cfg in enumerate(CONFIGS[1:]):
             by_cfg[cfg] = Gen(seed + 1000 * (n + 1), thorough, stypes).build(light=True)
+        for nv, g in gen.build_versions().items():
+            by_cfg["none@%d" % nv] = g
+        undec = gen.build_undecodable()
+        hists = gen.build_histories()
         do_dt = True
 
     fails = {}            # signature -> [count, text, found_input, [cases]]
     dist, evals, nontriv = {}, 0, 0
     rkeys, xset = set(), set()
-    samples, want_samples = [], {"codes": 2, "pairs": 2, "shapes": 2, "descriptions": 1, "replay": 3}
+    samples, want_samples = [], {"codes": 2, "pairs": 2, "shapes": 2, "descriptions": 1, "replay": 3, "versions": 2}
     seen_depth, seen_desc_len, seen_pairs, codes_full = 0, 0, set(), 0
 
     def fail(sig, text, found, case, go, expect, cfg="none"):
         f = fails.setdefault(sig, [0, text, found, [], go, expect, cfg])
         f[0] += 1
-        if len(f[3]) < 5:
+        if case and case[0] == "h" and f[3] and len(text) < len(f[1]):     # show the shortest failing history
+            f[1], f[4], f[5] = text, go, expect
+            f[3].insert(0, case)
+            del f[3][5:]
+        elif len(f[3]) < 5:
             f[3].append(case)
 
     inj = {}              # sweep over codes -> {text hash: code}: the error's text must tell the codes apart
@@ -346,11 +510,13 @@ def run(tier, seed, replay=None):
                         "StatusCode.String, FieldError.Error, ParameterError.Error (every level)")
     cfg_stats = {}
     work = [(cfg, g) for cfg, g in by_cfg.items()]
-    groups, i, cfg, pfx = [], 0, "none", ""
+    groups, i, cfg, pfx, hcfg, nv = [], 0, "none", "", "none", 1
     while i < len(groups) or work:
         if i >= len(groups):
             cfg, groups = work.pop(0)
-            i, pfx = 0, ("" if cfg == "none" else "handlers=%s:" % cfg)
+            hcfg, nv = (cfg.split("@") + ["1"])[:2]
+            nv = int(nv)
+            i, pfx = 0, ("" if hcfg == "none" else "handlers=%s:" % hcfg)
             if not groups:
                 continue
         batch, n = [], 0
@@ -364,8 +530,9 @@ def run(tier, seed, replay=None):
             else:
                 greq.append("r %d %d %d %d %s %s %s %s" % (e, a, lo, hi, d, f, p, mode))
                 oreq.append("r %d %d %d %d %s %s %s" % (e, a, lo, hi, d, f, p))
-        rc, gl, glog = vlib.run_harness(exe, "TestVerifC12", "cfg %s\n" % cfg + "\n".join(greq) + "\n", timeout=1500, tag="b%s%d" % (cfg, i))
-        gl = gl[1:]           # answer to the cfg line
+        rc, gl, glog = vlib.run_harness(exe, "TestVerifC12", "cfg %s\nnv %d\n" % (hcfg, nv) + "\n".join(greq) + "\n", timeout=1500,
+                                        tag="b%s%d" % (cfg.replace("@", "v"), i))
+        gl = gl[2:]           # answers to the cfg and nv lines
         orc, oout = vlib.run_oracle("c12", "\n".join(oreq) + "\n", timeout=1500)
         ol = oout.split("\n")
         if ol and ol[-1] == "":
@@ -413,10 +580,15 @@ def run(tier, seed, replay=None):
                     want_samples[kind] -= 1
                     samples.append(dict(expected_type=e, reply_type=a, status=scripted, response_prefill=mode, go=g, model=o))
                 what = "SendFor%s expecting type %d, reply type %d with status [%s]" % (
-                    "" if cfg == "none" else " (client with handlers '%s')" % cfg, e, a, scripted[:200])
+                    "" if hcfg == "none" else " (client with handlers '%s')" % hcfg, e, a, scripted[:200])
+                vp = ""
+                if "V" in mode or nv != 1:
+                    vp = "header-version:"
+                    what += "; reply header stamped with LLRP version %s, connection version: %s" % (
+                        mode[mode.index("V") + 1] if "V" in mode else "1 (default)", NEGOTIATED[nv])
                 bad = prop_check(e, a, c, scripted, gt) or render_check(br, gt)
                 if bad:
-                    fail(pfx + bad[0], "%s: %s; Go returned [%s]" % (what, bad[1], g[:300]), True, case, g[:300], o[:300], cfg)
+                    fail(pfx + vp + bad[0], "%s: %s; Go returned [%s]" % (what, bad[1], g[:300]), True, case, g[:300], o[:300], cfg)
                     continue
                 if gt[0] in ("status", "other"):
                     render_stats["errors_rendered"] += 1
@@ -486,6 +658,137 @@ def run(tier, seed, replay=None):
             res.notes.append("%d reader-initiated frames (KeepAlive/ROAccessReport/ReaderEventNotification) carrying the request's id were "
                              "handed to SendFor as the reply; SendFor reported a type mismatch and left the response untouched, which is "
                              "all C12 asks of it (mis-delivery itself is C03's subject)" % unsol_seen["delivered-as-reply"])
+
+    # replies that do not decode (the model's DecFail branches): the exchange must still report — an error, never success
+    undec_stats = dict(exchanges=0, max_len=0)
+    if undec:
+        greq = ["y %d %d %s z" % c for c in undec]
+        rc, gl, glog = vlib.run_harness(exe, "TestVerifC12", "cfg none\nnv 1\n" + "\n".join(greq) + "\n", timeout=900, tag="y")
+        gl = gl[2:]
+        orc, oout = vlib.run_oracle("c12", "\n".join("xf %d %d" % c[:2] for c in undec) + "\n", timeout=600)
+        ol = oout.split("\n")
+        if rc != 0 or len(gl) != len(undec) or orc != 0 or len(ol) < len(undec):
+            res.violation("harness-run", "Go harness / oracle failed on the undecodable replies (rc=%s/%s, %d of %d answers): %s" % (
+                rc, orc, len(gl), len(undec), glog[-1500:]), dict(kind="harness", log=glog[-3000:]), False)
+            return res.finish()
+        for (e, a, hx), g, o in zip(undec, gl, ol):
+            gt = g.split(" ")
+            case = ["y", e, a, hx]
+            br = branch_of(e, a)
+            n = 0 if hx == "-" else len(hx) // 2
+            evals += 1
+            nontriv += 1
+            undec_stats["exchanges"] += 1
+            undec_stats["max_len"] = max(undec_stats["max_len"], n)
+            dist["undecodable:" + br] = dist.get("undecodable:" + br, 0) + 1
+            what = "SendFor expecting type %d, reply of type %d whose %d-byte payload does not decode (%s%s)" % (e, a, n, hx[:80], "..." if len(hx) > 80 else "")
+            if len(gt) != 13:
+                fail("harness-answer", "unexpected harness answer: " + g[:200], False, case, g[:300], o[:300])
+            elif gt[0] == "skipped":
+                fail("harness-skipped", "exchanges not run because earlier ones timed out or panicked", False, case, g, o[:300])
+            elif gt[0] in ("panic", "timeout"):
+                fail("no-outcome:undecodable:%s:%s" % (br, gt[0]), what + ": SendFor did not return an outcome (%s)" % gt[0], True, case, g[:300], o[:300])
+            elif gt[0] == "nil":
+                fail("undecodable-reply-reported-as-success:" + br, what + ": reported as success", True, case, g[:300], o[:300])
+            elif render_check(br, gt):
+                bad = render_check(br, gt)
+                fail("undecodable:" + bad[0], what + ": " + bad[1], True, case, g[:300], o[:300])
+            else:
+                ot = o.split(" ")
+                if gt[0] != ot[0] or (ot[5] == "untouched" and gt[5] != "same"):
+                    fail("model-differs:undecodable:" + br, what + ": Go [%s] differs from the model [%s] where the property does not constrain it" % (g[:300], o[:300]),
+                         False, case, g[:300], o[:300])
+
+    # exchange histories: every caller is told the outcome of its own reply (the first frame with its request's id that is
+    # not reader-initiated), whatever else arrives — late answers to abandoned requests, ids nobody used, repeated answers,
+    # any header version. Judged per caller by the property predicate against ITS OWN reply, and against the model.
+    hist_stats = dict(histories=0, callers=0, frames_not_own_reply=0, abandoned=0)
+    for nv in sorted(hists):
+        hl = hists[nv]
+        if not hl:
+            continue
+        greq, oreq, own_all = [], [], []
+        for h in hl:
+            gs, os_, own, exp, aband = [], [], {}, {}, set()
+            for st in h:
+                if st[0] == "S":
+                    gs.append("S:%d:%d:z" % (st[1], st[2]))
+                    os_.append("S:%d:%d" % (st[1], st[2]))
+                    exp[st[1]] = st[2]
+                elif st[0] == "A":
+                    gs.append("A:%d" % st[1])
+                    os_.append("A:%d" % st[1])
+                    aband.add(st[1])
+                else:
+                    _, ver, typ, idspec, lay, c, d, f, p_, fl = st
+                    gs.append("R:%d:%d:%s:%d:%d:%s:%s:%s:%s" % (ver, typ, idspec, lay, c, d, f, p_, fl))
+                    oid = int(idspec[1:]) if idspec[0] == "k" else {"f": 100000, "m": 5000000000, "z": 99999}[idspec[0]] + int(idspec[1:])
+                    os_.append("R:%d:%d:%d:%d:%s:%s:%s" % (ver, typ, oid, c, d, f, p_))
+                    k = int(idspec[1:]) if idspec[0] == "k" else None
+                    if k is not None and k in exp and k not in own and k not in aband and typ not in READER_INITIATED:
+                        own[k] = st
+                    else:
+                        hist_stats["frames_not_own_reply"] += 1
+            greq.append("h " + " ".join(gs))
+            oreq.append("h %d " % NV_MODEL[nv] + " ".join(os_))
+            own_all.append((exp, own, aband))
+        rc, gl, glog = vlib.run_harness(exe, "TestVerifC12", "cfg none\nnv %d\n" % nv + "\n".join(greq) + "\n", timeout=900, tag="h%d" % nv)
+        gl = gl[2:]
+        orc, oout = vlib.run_oracle("c12", "\n".join(oreq) + "\n", timeout=600)
+        ol = oout.split("\n")
+        if rc != 0 or len(gl) != len(hl) or orc != 0 or len(ol) < len(hl):
+            res.violation("harness-run", "Go harness / oracle failed on the exchange histories (rc=%s/%s, %d of %d answers): %s" % (
+                rc, orc, len(gl), len(hl), glog[-1500:]), dict(kind="harness", log=glog[-3000:]), False)
+            return res.finish()
+        hkeys = set()
+        for h, (exp, own, aband), g, o, gline in zip(hl, own_all, gl, ol, greq):
+            answers = g.split(" | ")
+            model = dict(x.split("=", 1) for x in o.split(" | ") if "=" in x)
+            rcase = ["h", nv, [list(x) for x in h]]
+            hist_stats["histories"] += 1
+            if gline not in hkeys:
+                hkeys.add(gline)
+                nontriv += 1
+            dist["history:callers=%d" % len(exp)] = dist.get("history:callers=%d" % len(exp), 0) + 1
+            if len(answers) != len(exp):
+                fail("harness-answer", "unexpected harness answer: " + g[:200], False, rcase, g[:300], o[:300])
+                continue
+            if len([x for x in samples if x.get("scenario") == "exchange history"]) < 2 and len(g) < 500 and len(h) >= 4:
+                samples.append(dict(scenario="exchange history", negotiated=NEGOTIATED[nv], steps=gline, go=answers, model=o))
+            for k in sorted(exp):
+                ans, gt = answers[k], answers[k].split(" ")
+                m = model.get(str(k), "")
+                evals += 1
+                hist_stats["callers"] += 1
+                what = "history [%s] (%s): caller %d expecting type %d" % (gline[2:400], NEGOTIATED[nv], k, exp[k])
+                if len(gt) != 13:
+                    fail("harness-answer", "unexpected harness answer: " + ans[:200], False, rcase, g[:600], o[:300])
+                    continue
+                if gt[0] == "skipped":
+                    fail("harness-skipped", "exchanges not run because earlier ones timed out or panicked", False, rcase, g[:600], o[:300])
+                    continue
+                if k in own:
+                    _, ver, typ, idspec, lay, c, d, f, p_, fl = own[k]
+                    scripted = "%d %s %s %s" % (c, d, f, p_)
+                    what += ", whose own reply is type %d with status [%s] in a frame of header version %d" % (typ, scripted[:200], ver)
+                    bad = prop_check(exp[k], typ, c, scripted, gt) or render_check(branch_of(exp[k], typ), gt)
+                    if bad:
+                        fail("history:" + bad[0], what + ": " + bad[1] + "; the caller got [%s]; all callers: [%s]" % (ans[:200], g[:600]), True, rcase, g[:600], o[:300])
+                        continue
+                    merr, msame, min_ = model_expect(m, "z")
+                    if " ".join(gt[0:5]) != merr or (msame and gt[5] != msame) or (min_ and " ".join(gt[6:10]) != min_):
+                        fail("model-differs:history", what + ": Go [%s] differs from the model [%s] where the property does not constrain it" % (
+                            ans[:300], m[:300]), False, rcase, g[:600], o[:300])
+                else:
+                    hist_stats["abandoned"] += 1
+                    if gt[0] == "nil":
+                        fail("history:success-without-reply", what + ", abandoned before any reply to it arrived: reported success; all callers: [%s]" % g[:600],
+                             True, rcase, g[:600], o[:300])
+                    elif gt[0] in ("panic", "timeout"):
+                        fail("no-outcome:history:" + gt[0], what + ", abandoned: SendFor did not return (%s)" % gt[0], True, rcase, g[:600], o[:300])
+                    elif gt[0] != "abandoned" or m != "abandoned":
+                        fail("model-differs:history", what + ", abandoned before any reply to it arrived: Go [%s], model [%s]" % (ans[:300], m[:300]),
+                             False, rcase, g[:600], o[:300])
 
     # several requests outstanding on one Client, replies back to back: every caller must get its own reply's outcome
     conc_seen = dict(rounds=0, callers=0, gomaxprocs1_rounds=0)
@@ -626,6 +929,9 @@ def run(tier, seed, replay=None):
                 bad = ("status-not-exposed", "the error exposes neither a *StatusError with the reader's fields nor their text")
             if bad:
                 sig = "internal:%s:%s:%s" % (w, br, bad[0]) if br != "other" or bad[0].startswith("mismatch") else "internal:%s:%s" % (w, bad[0])
+                if "V" in mode:
+                    sig = "header-version:" + sig
+                    what += " in a frame stamped with LLRP version " + mode[mode.index("V") + 1]
                 fail(sig, what + ": " + bad[1] + "; observed [%s]" % g[:300], True, case, g[:300], "")
 
     for sig, (cnt, text, found, cases, g, o, fcfg) in sorted(fails.items()):
@@ -638,7 +944,12 @@ def run(tier, seed, replay=None):
                                        "['c', reply order, GOMAXPROCS (0 = default), [caller cases]] = that many SendFor calls in flight, replies in one write; "
                                        "letters after z|s: P/I = ParameterError before FieldError at the top level / inside ParameterError; "
                                        "['i', gsv|spv|close, reply type, code, desc, fe, pe, mode] = the Client's own exchange in Connect / Shutdown; "
-                                       "'config' = MessageHandlers the client was built with (none|exp|err|def|all); ['dt', code] = text of a bare status code"),
+                                       "'config' = MessageHandlers the client was built with (none|exp|err|def|all), '@n' appended = how the connection's version was "
+                                       "negotiated (1 WithVersion(1.0.1); 2 reader at 1.1; 3 SET_PROTOCOL_VERSION to 1.1; 4 version query refused); a mode letter V<d> = "
+                                       "the reply's header carries LLRP version d; ['dt', code] = text of a bare status code; ['y', exp, act, payload hex] = reply whose "
+                                       "payload does not decode; ['h', n, steps] = exchange history on one Client: ('S', caller, expected type) request started, "
+                                       "('A', caller) its context cancelled, ('R', header version, type, id (k<caller> | f<unused id> | m<largest id so far + n> | z0 = id 0, used up by a warm-up exchange), layout, code, desc, fe, pe, order "
+                                       "flags) frame written by the reader"),
                       found)
 
     res.coverage.update(
@@ -649,13 +960,17 @@ def run(tier, seed, replay=None):
              "plus rounds of 2..4 concurrent SendFor calls whose replies arrive in one TCP write (evaluations counts callers, "
              "distinct_nontrivial counts distinct rounds); both sub-parameter orders count as distinct cases; the same classes are run on "
              "clients built with MessageHandlers (distinct per configuration); plus Connect's/Shutdown's own exchanges; plus the bare "
-             "text of each of the 65536 codes (not counted as non-trivial)",
+             "text of each of the 65536 codes (not counted as non-trivial); plus replies whose payload does not decode (one case per payload); "
+             "plus exchange histories (evaluations counts callers, distinct_nontrivial counts distinct histories)",
         samples=samples, input_distribution=dist, traces_validated_against_impl=evals,
         status_codes_enumerated="all 65536 codes on %d (expected, reply) type combinations (%d exchanges); 300 stratified codes on the others%s"
                                 % (len(rkeys), codes_full, "" if not thorough else " (none: thorough enumerates every status type)"),
         exhaustive=bool(thorough), exhaustive_note="thorough: 65536 codes x 19 status-bearing types x {expected, ERROR_MESSAGE}; "
                                                    "descriptions and nested shapes are sampled (unbounded space; covered by the proof)",
         reader_initiated_frames=unsol_seen, concurrent=conc_seen, handler_configurations=cfg_stats, rendering=render_stats,
-        status_code_texts=dt_stats, internal_exchanges=int_stats, type_pairs=len(seen_pairs), status_types=stypes, max_nested_depth=seen_depth, max_description_bytes=seen_desc_len,
+        status_code_texts=dt_stats, internal_exchanges=int_stats, undecodable_replies=undec_stats, exchange_histories=hist_stats,
+        header_versions="all 8 values of the reply's header version x 4 ways of negotiating the connection's version, on the expected / "
+                        "ERROR_MESSAGE / unrelated-type branches (kind 'versions'), on Connect's and Shutdown's own exchanges, in the concurrent rounds and "
+                        "in every frame of the exchange histories", type_pairs=len(seen_pairs), status_types=stypes, max_nested_depth=seen_depth, max_description_bytes=seen_desc_len,
         trusted_base=res.assumptions)
     return res.finish()
